@@ -13,18 +13,17 @@ from vlib import Result, enc_list, f2b, Toks, close
 
 PROP = 'C15'
 META = {
-    'level_text': 'Lean 4 theorems about definitions REGENERATED on every run from ShapeFactors.py by a concolic tracer (inner formulas and …Min constants of needle/plate/cuboidal/sphere) and about hand models of the wrappers and of the _findRcrit bisection: unit-volume semi-axes with the requested aspect ratio, thermodynamic factor = spheroid (cuboid) area / equal-volume-sphere area and kinetic factor = spheroid capacitance / equal-volume radius as identities with the textbook closed forms (generic ordered field with the transcendental sub-terms as atoms, and over the reals with Mathlib rpow/arcsin/arccos/log), wrappers return the …Min constants at ar <= 1, cuboidal continuity at 1 (…Min = formula(1)), eq.-radius continuity at 1 for needle/plate, scalar call = array call element-wise, clamp leaves the argument unchanged, bisection result/iteration-cap/fallback specification, bracket sign and halving invariants by induction, scalar-aspect closed form is an exact root. Generated defs and models are tied to the code by differential correspondence on every run; the property predicates are also evaluated directly on the real functions, the closed forms against scipy quadrature of the area and capacitance integrals.',
-    'level_note': 'Monitored only (oracle, not proved): thermo/kinetic factor of needle and plate tend to 1 at ar -> 1 (asin e / e -> 1) and all needle/plate factors increase with ar (grids on [1,100] and 1+10^-k); closed forms = the area / capacitance integrals (scipy.integrate.quad, rtol 1e-7); cuboidal kinetic factor continuity (the constant is the formula at 1.0001, 9e-7 away from the limit 0.968; continuity tolerance of the oracle is 1e-5 relative); a bracketed root of a continuous objective is found before the 100-iteration cap (oracle on random aspect-ratio functions). Trusted: Lean kernel + Mathlib, axioms propext/Classical.choice/Quot.sound; the tracer tools/py2lean/sym.py (validated numerically on every run); hand models equal the NumPy code as far as this run compared them; exact-field arithmetic instead of IEEE doubles.',
+    'level_text': 'Lean 4 theorems about definitions REGENERATED on every run from ShapeFactors.py by a concolic tracer (inner formulas and …Min constants of needle/plate/cuboidal/sphere) and about hand models of the public wrappers and of the _findRcrit bisection: unit-volume semi-axes with the requested aspect ratio; thermodynamic factor = spheroid (cuboid) area / equal-volume-sphere area and kinetic factor = spheroid capacitance / equal-volume radius as identities with the textbook closed forms (generic ordered field with the transcendental sub-terms as atoms, and over the reals with Mathlib rpow/arcsin/arccos/log, no atom hypotheses left); wrappers return the …Min constants at ar <= 1; continuity at 1 <=> …Min = formula(1), and over the reals ContinuousAt at 1 of all twelve public factor functions and of the semi-axes (needle/plate thermodynamic and kinetic factor tend to 1 via asin e/e -> 1 and (log(1+e)-log(1-e))/e -> 2, cuboid kinetic factor tends to 0.968); eq.-radius factor strictly increasing; scalar call = array call element-wise; clamp leaves the argument unchanged; bisection result / iteration-cap / fallback specification, bracket sign and halving invariants by induction, scalar-aspect closed form is an exact root. Generated defs and models are tied to the code by differential correspondence on every run; the property predicates are also evaluated directly on the real functions, the closed forms against scipy quadrature of the area and capacitance integrals.',
+    'level_note': 'Monitored only (oracle, not proved): thermodynamic and kinetic factor of needle and plate increase with ar (grids on [1,100] and 1+10^-k); closed forms = the area / capacitance integrals (scipy.integrate.quad, rtol 1e-7); a bracketed root of a continuous objective is found before the 100-iteration cap (oracle on random aspect-ratio functions; the Lean theorem gives the bracket of width (Rmax-Rs)/2^n with a sign change, not convergence in 100 steps). The bracket invariant needs f(RcritSphere) != 0: with an exact root at the lower end the code walks off it and ends in the fallback, which is then that root (counter-example kept in Props/C15.lean). Trusted: Lean kernel + Mathlib, axioms propext/Classical.choice/Quot.sound; the tracer tools/py2lean/sym.py (every generated def re-validated numerically on each run); hand models equal the NumPy code as far as this run compared them; exact-field / real arithmetic instead of IEEE doubles (oracle continuity tolerance 1e-7 relative + 3*10^-k).',
     'technique': 'Lean 4 proof over generated definitions (py2lean) + hand models + differential correspondence + quadrature oracle',
     'design_ref': 'DESIGN.md section 6, C15',
 }
 LEAN_MODULES = ['KawinV.Props.C15']
 MONITORED = [
-    'needle/plate thermodynamic and kinetic factor -> 1 as ar -> 1 (asin e / e -> 1): grid 1+10^-k, k=1..15',
-    'needle/plate eq.-radius, thermodynamic and kinetic factor increase with ar: fine grid on [1,100] and 1+10^-k',
-    'closed forms equal the spheroid area and capacitance integrals: scipy.integrate.quad',
-    'cuboidal kinetic factor continuous at 1 to 1e-5 relative (constant = formula(1.0001))',
-    'bisection reaches the tolerance before the iteration cap when a root of a continuous objective is bracketed',
+    'needle/plate thermodynamic and kinetic factor increase with ar: fine grid on [1,100] and 1+10^-k (eq.-radius factor: proved)',
+    'closed forms equal the spheroid area and capacitance integrals: scipy.integrate.quad at random ratios',
+    'bisection reaches the tolerance before the iteration cap when a root of a continuous objective is strictly bracketed',
+    'IEEE evaluation of the factors near ar = 1 stays within 1e-7 of the value at 1 (real-number continuity: proved)',
 ]
 ASSUMPTIONS = [
     'aspect ratios are finite numbers; the statement covers [1, 100] and inputs below 1 (treated as 1)',
@@ -102,7 +101,7 @@ def regenerate(ctx):
 # ------------------------------------------------------------------ helpers
 SID = {'needle': 0, 'plate': 1, 'cuboid': 2, 'sphere': 3}
 KGRID = list(range(1, 16))                    # 1 + 10^-k
-CONT_TOL = 1e-5                               # relative jump tolerated at ar = 1 (see META.level_note)
+CONT_TOL = 1e-7                               # relative jump tolerated at ar = 1 (see META.level_note)
 
 
 def desc(SF, sh):
@@ -259,8 +258,11 @@ def chk_monotone(SF, args):
         i = int(np.argmax(v < 1.0 - 1e-9)) if np.any(v < 1.0 - 1e-9) else 0
         out.append(('at-least-1:%s:%s' % (sh, fn), '%s(%r) < 1 (or != 1 at ar = 1)' % (fn, float(g[i])), float(v[i]), '>= 1, = 1 at ar = 1'))
     dv = np.diff(v)
-    # rounding noise of the source formulas near ar = 1 is ~1e-16/e (e = eccentricity): allow 1e-9 below 1.001, 1e-12 above
-    slack = np.where(g[1:] < 1.001, 1e-9, 1e-12) * np.abs(v[1:])
+    # rounding noise of the source formulas near ar = 1 is ~1e-16/e (e = eccentricity, cancellation in
+    # log(1+e)-log(1-e) and pi/2-arccos(e)): slack 1e-15/e + 1e-13 relative
+    with np.errstate(divide='ignore'):
+        ecc = np.sqrt(np.maximum(1.0 - 1.0 / g[:-1] ** 2, 0.0))
+        slack = (np.where(ecc > 0, 1e-15 / ecc, 1e-7) + 1e-13) * np.abs(v[1:])
     bad = dv < -slack
     strict = (g[1:] / g[:-1] >= 1.001) & (dv <= 0)
     if np.any(bad) or np.any(strict):
@@ -426,16 +428,16 @@ def gen_wrapper_case(rng):
 
 
 def gen_bisect_case(rng):
-    sh = rng.choice(['needle', 'needle', 'plate', 'plate', 'cuboid', 'sphere'])
+    sh = rng.choice(['needle', 'needle', 'needle', 'plate', 'plate', 'plate', 'cuboid', 'cuboid', 'sphere'])
     kind = rng.choice([0, 1, 1, 2, 2, 3])
     Rs = 10 ** rng.uniform(-10, -8)
     Rmax = Rs * rng.choice([1.05, 1.3, 2.0, 3.0, 5.0, 10.0, 30.0]) * rng.uniform(1.0, 1.2)
     if kind == 0:
-        p0, p1 = rng.choice([1.0, 0.5, 2.3, 7.0, 40.0]), 0.0
+        p0, p1 = rng.choice([0.5, 1.2, 2.3, 7.0, 40.0]), 0.0
     elif kind == 1:
-        p0, p1 = rng.choice([0.2, 0.8, 1.0, 1.5, 3.0]), rng.choice([0.1, 0.5, 1.0, 2.0])
+        p0, p1 = rng.choice([0.2, 0.95, 1.0, 1.5, 3.0]), rng.choice([0.1, 0.5, 1.0, 2.0])
     elif kind == 2:
-        p0, p1 = rng.choice([0.7, 1.0, 2.3, 5.0]), rng.choice([0.5, 1.1, 2.0, -0.5])
+        p0, p1 = rng.choice([0.7, 1.3, 2.3, 5.0]), rng.choice([0.5, 1.1, 2.0, -0.5])
     else:
         p0, p1 = rng.choice([0.5, 1.0, 2.0]), rng.choice([1.0, 5.0, 30.0])
     tol = rng.choice([1e-3, 1e-3, 1e-3, 1e-2, 1e-6, 1e-9])
@@ -458,7 +460,7 @@ def corr(ctx, oracle_only=False, scale=1):
     lines, after = [], []          # driver lines and what to do with each answer
 
     # ---------------- (A) translator validation
-    nA = ctx.n(300, 6000) * scale
+    nA = ctx.n(300, 20000) * scale
     for sh in SHAPES:
         d = desc(SF, sh)
         ars = [1.000001, 1.001, 1.5, 2.0, 10.0, 100.0]
@@ -478,7 +480,7 @@ def corr(ctx, oracle_only=False, scale=1):
             lines.append('c15.mins %d' % SID[sh]); after.append(('mins', sh, mins))
 
     # ---------------- (B) wrappers
-    nB = ctx.n(500, 12000) * scale
+    nB = ctx.n(500, 60000) * scale
     for i in range(nB):
         c = gen_wrapper_case(rng)
         try:
@@ -501,7 +503,7 @@ def corr(ctx, oracle_only=False, scale=1):
             after.append(('wrap', c, out, flat_after))
 
     # ---------------- (C) bisection
-    nC = ctx.n(300, 6000) * scale
+    nC = ctx.n(300, 30000) * scale
     for i in range(nC):
         c = gen_bisect_case(rng)
         sf, r, calls = run_bisect(SF, c)
@@ -522,7 +524,7 @@ def corr(ctx, oracle_only=False, scale=1):
             after.append(('bisect', c, r, iters, near, calls))
         res.traces += 1
     # scalar aspect ratio: closed form
-    for i in range(ctx.n(60, 1000) * scale):
+    for i in range(ctx.n(60, 3000) * scale):
         sh = rng.choice(SHAPES)
         ar = rng.choice([0.5, 1.0, 1.0 + 1e-9, 2.0, 2.7, 13.0, 100.0, math.exp(rng.uniform(0, math.log(100)))])
         Rs = 10 ** rng.uniform(-10, -8)
@@ -577,14 +579,14 @@ def corr(ctx, oracle_only=False, scale=1):
                     res.disagree('_findRcritScalar', c, r, a)
 
     # ---------------- (D) direct oracle on grids
-    g = fine_grid(ctx.n(400, 20000) * scale)
+    g = fine_grid(ctx.n(400, 100000) * scale)
     below = [0.999999999, 0.5, 0.0, -3.0]
     for sh in SHAPES:
         ars = np.concatenate([g, [0.5, 0.0, 1.0]])
         apply_check(res, SF, 'axes', {'shape': sh, 'ars': ars.tolist()}, short={'shape': sh, 'ars': 'fine_grid'})
         apply_check(res, SF, 'at_one', {'shape': sh, 'below': below})
         for fn in WRAP + ['normalRadii']:
-            for k in KGRID[5:]:
+            for k in [9] + [k for k in KGRID[5:] if k != 9]:
                 apply_check(res, SF, 'continuity', {'shape': sh, 'fn': fn, 'k': k})
                 res.case(('D-cont', sh, fn, k), True)
         res.count('D:continuity-probes', 4 * len(KGRID[5:]))
@@ -593,7 +595,7 @@ def corr(ctx, oracle_only=False, scale=1):
                 apply_check(res, SF, 'monotone', {'shape': sh, 'fn': fn, 'grid': g.tolist()}, short={'shape': sh, 'fn': fn, 'grid': 'fine_grid'})
                 res.case(('D-mono', sh, fn, len(g)), True)
         res.count('D:grid-points', len(g))
-    nQ = ctx.n(20, 400) * scale
+    nQ = ctx.n(20, 1500) * scale
     for sh in ('needle', 'plate', 'cuboid'):
         for ar in [1.0 + 1e-6, 1.001, 2.0, 100.0] + [math.exp(rng.uniform(0.0, math.log(100.0))) for _ in range(nQ)]:
             apply_check(res, SF, 'quad', {'shape': sh, 'ar': ar})
